@@ -378,6 +378,8 @@ func (f *Facts) Eval(e *ir.Expr) Res {
 		return Res{V: out}
 	case "oneof":
 		var alts []any
+		var altSrc []*ir.Expr // the option expression of each alternative
+		var sure []bool       // produced for certain (not merely possibly)
 		pending := false
 		why := ""
 		for _, o := range e.Opts {
@@ -394,6 +396,8 @@ func (f *Facts) Eval(e *ir.Expr) Res {
 				}
 				c[e.Disc] = o.Name
 				alts = append(alts, c)
+				altSrc = append(altSrc, o.E)
+				sure = append(sure, !r.Maybe)
 			case Pending:
 				pending = true
 			case EvalErr:
@@ -407,6 +411,24 @@ func (f *Facts) Eval(e *ir.Expr) Res {
 				return Res{St: Pending, Why: "oneof: " + why}
 			}
 			return Res{St: Missing, Why: "oneof: no option produced: " + why}
+		}
+		// The value is the option that was produced first. Where the workflow itself orders two options -
+		// the source step of one cannot start before the other's source has been produced - the later
+		// one is not admissible.
+		var first []any
+		for i := range alts {
+			later := false
+			for j := range alts {
+				if i != j && sure[j] && producedBefore(f.P, altSrc[j], altSrc[i]) {
+					later = true
+				}
+			}
+			if !later {
+				first = append(first, alts[i])
+			}
+		}
+		if len(first) > 0 {
+			alts = first
 		}
 		if len(alts) == 1 {
 			return Res{V: alts[0]}
@@ -1249,4 +1271,72 @@ func literalFalse(e *ir.Expr) bool {
 		return true
 	}
 	return false
+}
+
+// producedBefore reports whether what the reference a names is necessarily produced before what b
+// names: both refer to an output of a step, and b's step cannot start before a's output exists (a
+// chain of hard references through input, items, wait_for, enabled and deploy expressions).
+func producedBefore(p *ir.Program, a, b *ir.Expr) bool {
+	if a == nil || b == nil || a.K != "ref" || b.K != "ref" || len(a.Path) < 4 || len(b.Path) < 3 {
+		return false
+	}
+	if a.Path[0] != "steps" || b.Path[0] != "steps" {
+		return false
+	}
+	want3 := fmt.Sprint(a.Path[1]) + "." + fmt.Sprint(a.Path[2])
+	want4 := want3 + "." + fmt.Sprint(a.Path[3])
+	seen := map[string]bool{}
+	var gated func(id string) bool
+	gated = func(id string) bool {
+		if seen[id] {
+			return false
+		}
+		seen[id] = true
+		st := p.Step(id)
+		if st == nil {
+			return false
+		}
+		found := false
+		for name, e := range st.Exprs() {
+			if name == "stop_if" || e == nil {
+				continue // a stop condition does not hold up the start
+			}
+			var walk func(x *ir.Expr)
+			walk = func(x *ir.Expr) {
+				if x == nil || found || x.K == "opt" || x.K == "oneof" {
+					return
+				}
+				if x.K == "ref" && len(x.Path) >= 3 && x.Path[0] == "steps" {
+					k3 := fmt.Sprint(x.Path[1]) + "." + fmt.Sprint(x.Path[2])
+					if k3 == want3 && (len(x.Path) == 3 || k3+"."+fmt.Sprint(x.Path[3]) == want4) {
+						found = true
+						return
+					}
+					// through a step that ran: what it needed to start came before its own output
+					if x.Path[2] == "outputs" && gated(fmt.Sprint(x.Path[1])) {
+						found = true
+						return
+					}
+				}
+				for _, y := range x.Args {
+					walk(y)
+				}
+				for _, y := range x.Items {
+					walk(y)
+				}
+				for _, fl := range x.Fields {
+					walk(fl.E)
+				}
+				for _, o := range x.Opts {
+					walk(o.E)
+				}
+			}
+			walk(e)
+		}
+		return found
+	}
+	if fmt.Sprint(b.Path[2]) != "outputs" {
+		return false // only a step that ran is known to have had its start conditions met
+	}
+	return gated(fmt.Sprint(b.Path[1]))
 }
